@@ -2,7 +2,7 @@
    source followed by metrics from the same source and the lookup result drives
    cloudprovider.hosts_queued{type:metric} to 2^64-1 while nothing is waiting. *)
 From stdpp Require Import gmap.
-From GS Require Import Base.Bytes Base.LTS Model.Series Model.MetricMap Model.Cloud.
+From GS Require Import Base.Bytes Base.LTS Model.Series Model.MetricMap Model.Content Model.Cloud Model.CloudMaps.
 Local Open Scope Z_scope.
 
 Definition d7_src : source := [49%N].                      (* "1" *)
@@ -15,7 +15,7 @@ Definition d7_labels : list label :=
 Lemma legacy_refuted_D7 :
   exists st, run step_legacy init d7_labels = Some st
              /\ parked st = [] /\ hostsM st = 2 ^ 64 - 1.
-Proof. eexists; split; [reflexivity|]. split; vm_compute; reflexivity. Qed.
+Proof. eexists; split; [vm_compute; reflexivity|]. split; vm_compute; reflexivity. Qed.
 
 (* the same three labels on the repaired accounting *)
 Lemma fixed_D7_witness :
@@ -38,18 +38,51 @@ Lemma ex_run_env :
              /\ parked st = [] /\ length (down st) = 4%nat
              /\ emitted st = [(1, 1, 1); (0, 0, 0)]
              /\ map item_src (map delivered (down st)) = [[]; [105%N]; [105%N]; [105%N]].
-Proof. eexists; split; [reflexivity|]. repeat split; vm_compute; reflexivity. Qed.
+Proof. eexists; split; [vm_compute; reflexivity|]. repeat split; vm_compute; reflexivity. Qed.
 
 (* in the middle of that run something is parked and exactly one lookup is outstanding *)
 Lemma ex_run_env_mid :
   exists st, run step_env init (firstn 4 ex_labels) = Some st
-             /\ waiting st d7_src = true /\ count d7_src (toLookup st ++ sent st) = 1%nat
+             /\ waiting st d7_src = true /\ count d7_src (pending st ++ sent (lk st)) = 1%nat
              /\ length (parked st) = 3%nat.
-Proof. eexists; split; [reflexivity|]. repeat split; vm_compute; reflexivity. Qed.
+Proof. eexists; split; [vm_compute; reflexivity|]. repeat split; vm_compute; reflexivity. Qed.
 
 (* without the environment hypothesis of C11_one_lookup the bound fails: an unsolicited result for a
    source whose lookup has not left yet releases its items, and the next arrival queues a second lookup *)
 Lemma one_lookup_needs_env :
   exists st, run step init [ArriveEvent d7_event d7_miss; Info d7_src None; ArriveEvent d7_event d7_miss] = Some st
-             /\ count d7_src (toLookup st ++ sent st) = 2%nat.
-Proof. eexists; split; [reflexivity|]. vm_compute; reflexivity. Qed.
+             /\ count d7_src (pending st ++ sent (lk st)) = 2%nat.
+Proof. eexists; split; [vm_compute; reflexivity|]. vm_compute; reflexivity. Qed.
+
+(* ---- collisions after re-keying --------------------------------------------------------------------- *)
+
+(* two addresses of one (tag-less) instance send the same counter in one batch: both are cache hits, both are
+   delivered (two records in the log), and the dispatched map holds ONE series with the sum *)
+Definition col_src2 : source := [50%N].
+Definition col_c1 : entry := EC [99%N] (tags_key d7_src []) 3 1 d7_src [].
+Definition col_c2 : entry := EC [99%N] (tags_key col_src2 []) 4 2 col_src2 [].
+Definition col_inst : instance := Inst [105%N] [].
+Definition col_peek : peekfn := λ _, Some (Some col_inst).
+Lemma ex_collision :
+  exists st, run step init [ArriveMetrics [col_c1; col_c2] col_peek] = Some st
+             /\ length (down st) = 2%nat
+             /\ entries (abs_entries (delivered_metrics (down st))) = [EC [99%N] (tags_key [105%N] []) 7 2 [105%N] []]
+             /\ dispatch_of (down st) (abs_entries (delivered_metrics (down st))).
+Proof.
+  eexists; split; [vm_compute; reflexivity|]. repeat split; try (vm_compute; reflexivity).
+  eexists; split; reflexivity.
+Qed.
+
+(* a stack of two groups: the younger source leaves first *)
+Lemma ex_lifo :
+  exists st, run step init [ArriveEvent d7_event d7_miss;
+                            ArriveEvent (CEvent [102%N] [] 0 [] [] [] col_src2 0 0) d7_miss;
+                            ArriveEvent (CEvent [103%N] [] 0 [] [] [] [51%N] 0 0) d7_miss] = Some st
+             /\ stack (lk st) = [(false, [[51%N]]); (false, [col_src2]); (true, [d7_src])]
+             /\ step st (SendLookup [51%N]) = None
+             /\ exists st', step st (SendLookup d7_src) = Some st'
+                            /\ stack (lk st') = [(true, [[51%N]]); (false, [col_src2])].
+Proof.
+  eexists; split; [vm_compute; reflexivity|]. repeat split; try (vm_compute; reflexivity).
+  eexists; split; vm_compute; reflexivity.
+Qed.
